@@ -418,7 +418,7 @@ pub fn c11(g: &mut G) {
 pub fn c08(g: &mut G) {
     // file sizes at every residue around multiples of 64 KiB / 128 KiB; a file of 17 MiB
     g.emit("!scale sizes".into());
-    g.emit("!scale bigfile set 17".into());
+    g.emit("!scale bigfile set 21".into());
     // checksum of arbitrary data across the 16-byte fast path boundary
     let maxlen = if g.thorough { 4096 } else { 600 };
     let mut len = 0usize;
